@@ -6,7 +6,7 @@ import shapelib
 M = 1000000
 
 
-def make_transformer(base, names, tnames, style, log=None, none_names=()):
+def make_transformer(base, names, tnames, style, log=None, none_names=(), none_tnames=(), default_in_mixin=False):
     """a pure transformer: every chosen rule/alias callback returns ('cb', name, children), every chosen terminal callback ('tcb', type, value)"""
     from lark import v_args
     ns = {}
@@ -31,9 +31,17 @@ def make_transformer(base, names, tnames, style, log=None, none_names=()):
         def h(self, tok, _t=t):
             r = ('tcb', tok.type, str(tok))
             if log is not None: log.append(r)
-            return r
+            return None if _t in none_tnames else r
         ns[t] = h
-    cls = type('T_' + style, (base,), ns)
+    bases = (base,)
+    if default_in_mixin:
+        # an overridden __default__ that the concrete class *inherits* (mixin): every node without a named callback goes through it
+        def dflt(self, data, children, meta):
+            r = ('cb', str(data), tuple(children))
+            if log is not None: log.append(r)
+            return r
+        bases = (type('DefaultMixin', (object,), {'__default__': dflt}), base)
+    cls = type('T_' + style, bases, ns)
     if style == 'inline':
         cls = v_args(inline=True)(cls)
     elif style == 'tree':
@@ -62,7 +70,7 @@ def model_val(v, labels, toks, none_names=()):
     if 't' in v:
         i = v['t']
         if i >= M:
-            t = toks[i - M]; return ['ct', t[0], t[1]]
+            t = toks[i - M]; return None if t[0] in none_names else ['ct', t[0], t[1]]
         t = toks[i]; return ['t', t[0], t[1]]
     d = v['d']
     kids = [model_val(k, labels, toks, none_names) for k in v['k']]
@@ -83,6 +91,7 @@ def term_val(v, data_names, toks, none_names=()):
     if 't' in v or 'ct' in v:
         t = toks[v.get('t', v.get('ct'))]
         if t is None: return None
+        if 'ct' in v and t.type in none_names: return None
         return ['ct' if 'ct' in v else 't', t.type, str(t)]
     key = 'c' if 'c' in v else 'T'
     if key == 'c' and data_names[v[key]] in none_names:
@@ -108,7 +117,8 @@ def _case(args):
     tnames = [t for t in tvisible if rng.random() < 0.3]
     style = rng.choice(['plain', 'plain', 'inline', 'tree'])
     none_names = [n for n in names if rng.random() < 0.2]
-    T = make_transformer(Transformer, names, tnames, style, none_names=none_names)
+    none_tnames = [t for t in tnames if rng.random() < 0.3]
+    T = make_transformer(Transformer, names, tnames, style, none_names=none_names, none_tnames=none_tnames)
     try:
         with guarded(5):
             emb = Lark(g, parser='lalr', transformer=T(), **opts)
@@ -126,7 +136,7 @@ def _case(args):
                 raw = shapelib.raw_parse(plain, text)
         except UnexpectedInput:
             continue
-        rec = {'text': text, 'style': style, 'names': names, 'tnames': tnames, 'none_names': none_names}
+        rec = {'text': text, 'style': style, 'names': names, 'tnames': tnames, 'none_names': none_names + none_tnames}
         with guarded(10):
             rec['embedded'] = canon(emb.parse(text))
             rec['after'] = canon(T().transform(tree))
@@ -139,9 +149,11 @@ def _case(args):
         rec['cb_toks'] = [i for i, t in enumerate(toks) if t.type in tnames]
         # ---- the four variants on the parse tree, with call logs
         variants = {}
+        dmix = rng.random() < 0.3
+        rec['default_in_mixin'] = dmix
         for vname, base in [('Transformer', Transformer), ('NonRecursive', Transformer_NonRecursive), ('InPlace', Transformer_InPlace), ('InPlaceRecursive', Transformer_InPlaceRecursive)]:
             log = []
-            Tv = make_transformer(base, names, tnames, style, log, none_names=none_names)
+            Tv = make_transformer(base, names, tnames, style, log, none_names=none_names, none_tnames=none_tnames, default_in_mixin=dmix)
             with guarded(10):
                 out = Tv().transform(copy.deepcopy(tree))
             clog = [canon(x) for x in log]
@@ -150,7 +162,7 @@ def _case(args):
         data_ids, ftoks = {}, []
         rec['tforest'] = [tree_to_forest(tree, data_ids, ftoks)]
         rec['data_names'] = [k for k, _v in sorted(data_ids.items(), key=lambda kv: kv[1])]
-        rec['cb_data'] = [i for n, i in data_ids.items() if n in names]
+        rec['cb_data'] = [i for n, i in data_ids.items() if n in names or dmix]
         rec['ftoks'] = [None if t is None else [t.type, str(t)] for t in ftoks]
         rec['cb_ftoks'] = [i for i, t in enumerate(ftoks) if t is not None and t.type in tnames]
         recs.append(rec)
